@@ -88,6 +88,13 @@ func (fg *FnGen) collectDebugNames() {
 				if x.Comment != "" {
 					fg.debugNames[x.Comment] = append(fg.debugNames[x.Comment], debugBinding{v: x, block: b, idx: i, addr: true, pos: x.Pos()})
 				}
+			case *ssa.Phi:
+				// the merge of a source variable is a binding of that variable at the head of its block (needed when
+				// the point of evaluation is dominated by the merge but by no later use: e.g. an outer loop's variable
+				// named in an inner loop's invariant)
+				if x.Comment != "" {
+					fg.debugNames[x.Comment] = append(fg.debugNames[x.Comment], debugBinding{v: x, block: b, idx: i, addr: false, pos: x.Pos()})
+				}
 			}
 		}
 	}
@@ -503,6 +510,26 @@ func quantCarriers(body CExpr, v string) []CExpr {
 }
 
 func (fg *FnGen) evalIdent(name string, env *CEnv) *Val {
+	if strings.HasPrefix(name, "\x00") {
+		// local(name): skip the bindings of the contract language (result, arg0...) and resolve a program variable
+		name = name[1:]
+		if !env.noLocals {
+			if v, ok := env.lookupLocal(name); ok {
+				return v
+			}
+		}
+		if v, ok := fg.params[name]; ok {
+			return v
+		}
+		panic(unsupported("local(" + name + "): no such variable here"))
+	}
+	if _, isParam := fg.params[name]; isParam && (env.loop != nil || env.atBlock != nil) && !env.noLocals && env.calleePkg == "" && fg.paramReassigned(name) {
+		// a parameter that the function assigns: inside the body (loop invariants, at-call clauses) the name denotes
+		// the variable's current value; in requires/ensures it denotes the entry value
+		if v, ok := env.lookupLocal(name); ok {
+			return v
+		}
+	}
 	if v, ok := env.vars[name]; ok {
 		return v
 	}
@@ -987,7 +1014,8 @@ func (fg *FnGen) evalCall(x *CCall, env *CEnv) *Val {
 			pn = p.Name + "."
 		}
 		a := fg.get(env.st, "held:"+pn+path, ArrSort(SBool))
-		return &Val{T: tBool, L: []Term{{fmt.Sprintf("(forall ((r! Int)) (not (select %s r!)))", a.S), SBool}}}
+		ra := fg.get(env.st, "rheld:"+pn+path, ArrSort(SBool))
+		return &Val{T: tBool, L: []Term{{fmt.Sprintf("(forall ((r! Int)) (and (not (select %s r!)) (not (select %s r!))))", a.S, ra.S), SBool}}}
 	case "atomic":
 		// last observed/written value of an atomic field
 		l := fg.evalLoc(x.Args[0], env)
@@ -1026,6 +1054,10 @@ func (fg *FnGen) evalCall(x *CCall, env *CEnv) *Val {
 			panic(unsupported("off() of a non-slice"))
 		}
 		return &Val{T: tInt, L: []Term{v.L[1]}}
+	case "allocated":
+		// the reference (array of a slice) denotes memory that exists in the state at hand (or is nil)
+		v := fg.evalC(x.Args[0], env)
+		return &Val{T: tBool, L: []Term{Lt(v.L[0], fg.get(env.st, "$alloc", SInt))}}
 	case "fresh":
 		v := fg.evalC(x.Args[0], env)
 		return &Val{T: tBool, L: []Term{Ge(v.L[0], fg.get(env.old, "$alloc", SInt))}}
@@ -1102,7 +1134,7 @@ func (fg *FnGen) evalCall(x *CCall, env *CEnv) *Val {
 			fg.g.typeIDs[s.Val] = id
 		}
 		return &Val{T: tBool, L: []Term{Eq(v.L[0], IntLit(int64(id)))}}
-	case "int", "int32", "int64", "uint32", "uint64", "byte", "uint8", "uint", "int8", "int16", "uint16":
+	case "int", "int32", "int64", "uint32", "uint64", "byte", "uint8", "uint", "int8", "int16", "uint16", "string":
 		return fg.evalC(x.Args[0], env)
 	case "ite":
 		c := fg.evalBool(x.Args[0], env)
@@ -1363,6 +1395,31 @@ func (fg *FnGen) evalMod(e CExpr, env *CEnv) []modEntry {
 }
 
 // paramNeverReassigned: the parameter's spill cell (if any) is stored exactly once (the initial spill).
+// paramReassigned: the function assigns a new value to the parameter (some binding of the name is not the parameter
+// itself: a phi or a computed value; or the spilled cell is stored more than once).
+func (fg *FnGen) paramReassigned(name string) bool {
+	if !fg.paramNeverReassigned(name) {
+		return true
+	}
+	for _, b := range fg.debugNames[name] {
+		if b.addr {
+			continue
+		}
+		switch x := b.v.(type) {
+		case *ssa.Parameter, *ssa.FreeVar:
+		case *ssa.UnOp:
+			// a read of the parameter's spilled cell is not an assignment
+			if al, ok := x.X.(*ssa.Alloc); ok && x.Op == token.MUL && al.Comment == name {
+				continue
+			}
+			return true
+		default:
+			return true
+		}
+	}
+	return false
+}
+
 func (fg *FnGen) paramNeverReassigned(name string) bool {
 	if fg.paramStable == nil {
 		fg.paramStable = map[string]bool{}
